@@ -6,12 +6,12 @@ from .workers import run_shards, run_one
 
 
 def simple_run(prop, snap, tier, seed, t0, replay, level, rule, assumptions, shard_args_fn,
-               floors_fn=None, envs_fn=None, timeout=3000, extra_cov_fn=None, module=None):
+               floors_fn=None, envs_fn=None, timeout=3000, extra_cov_fn=None, module=None, replay_extra=None):
     """shard_args_fn(tier, seed) -> list of args dicts; floors_fn(merged, tier) -> floors dict."""
     module = module or prop.lower()
     if replay is not None:
         case = replay.get("case", replay)
-        res = run_one(snap, module, {"replay": case, "seed": seed, "tier": tier},
+        res = run_one(snap, module, dict({"replay": case, "seed": seed, "tier": tier}, **(replay_extra or {})),
                       envs_fn(snap, [{"replay": case}])[0] if envs_fn else snap.env(), timeout)
         m = harness.merge([res])
         print("REPLAY %s: violations=%d known=%d" % (prop, m.unlisted_n, sum(m.known_n.values())))
